@@ -3,7 +3,9 @@ package eng
 import (
 	"fmt"
 	"go/constant"
+	"go/types"
 	"sort"
+	"strconv"
 	"strings"
 
 	"golang.org/x/tools/go/ssa"
@@ -92,6 +94,58 @@ func varargsElems(tb *TB, t *Term) []*Term {
 	return out
 }
 
+// concatParts flattens a string built by + and by fmt.Sprintf with only %s verbs into its pieces
+// (quoted literals, adjacent ones merged, and the printed terms of the non-literal pieces).
+func concatParts(tb *TB, t *Term) []string {
+	var out []string
+	push := func(s string, lit bool) {
+		if lit && len(out) > 0 && strings.HasPrefix(out[len(out)-1], `"`) {
+			a, _ := unquote(out[len(out)-1])
+			b, _ := unquote(s)
+			out[len(out)-1] = strconv.Quote(a + b)
+			return
+		}
+		if lit {
+			if u, _ := unquote(s); u == "" {
+				return
+			}
+		}
+		out = append(out, s)
+	}
+	var walk func(x *Term)
+	walk = func(x *Term) {
+		switch {
+		case x.Op == "bin" && x.Sym == "+" && len(x.Args) == 2:
+			walk(x.Args[0])
+			walk(x.Args[1])
+		case x.IsConst() && strings.HasPrefix(x.Sym, `"`):
+			push(x.Sym, true)
+		case x.Op == "call" && x.Sym == "fmt.Sprintf" && len(x.Args) == 2 && x.Args[0].IsConst():
+			f, err := unquote(x.Args[0].Sym)
+			el := varargsElems(tb, x.Args[1])
+			segs := strings.Split(f, "%s")
+			if err != nil || len(segs) != len(el)+1 || strings.Contains(strings.Join(segs, ""), "%") {
+				push(x.String(), false)
+				return
+			}
+			for i, sg := range segs {
+				push(strconv.Quote(sg), true)
+				if i < len(el) {
+					if isNonString(el[i].Typ) {
+						out = append(out, "non-string:"+el[i].String())
+					} else {
+						walk(el[i])
+					}
+				}
+			}
+		default:
+			push(x.String(), false)
+		}
+	}
+	walk(t)
+	return out
+}
+
 func runC16(c *Check, w *World) {
 	tb := NewTB(w)
 	ef := NewEffects(tb)
@@ -158,19 +212,12 @@ func runC16(c *Check, w *World) {
 			return true
 		},
 		"digits": func(t *Term) bool {
-			if t.Op != "call" || t.Sym != "fmt.Sprintf" || t.Args[0].Sym != `"%d"` {
+			x, ok := decimalOf(tb, t)
+			if !ok {
 				return false
 			}
-			el := varargsElems(tb, t.Args[1])
-			if len(el) != 1 {
-				return false
-			}
-			for _, a := range el[0].Alts() {
-				if !(a.String() == fld("Digits") || (a.IsConst() && a.Sym == "6")) {
-					return false
-				}
-			}
-			return true
+			ok, _ = defaultedInt(tb, builder, x, fld("Digits"), "Digits", "6")
+			return ok
 		},
 	}
 	for _, s := range sets {
@@ -231,13 +278,8 @@ func runC16(c *Check, w *World) {
 	}
 	for _, st := range us["Path"] {
 		vt := tb.Of(st.Val)
-		ok := false
-		if vt.Op == "bin" && vt.Sym == "+" && vt.Args[0].IsConst() && vt.Args[0].Sym == `"/"` && vt.Args[1].Op == "call" && vt.Args[1].Sym == "fmt.Sprintf" && vt.Args[1].Args[0].Sym == `"%s:%s"` {
-			el := varargsElems(tb, vt.Args[1].Args[1])
-			ok = len(el) == 2 && el[0].String() == fld("Issuer") && el[1].String() == fld("AccountName")
-		} else if vt.String() == `bin(+; bin(+; bin(+; const("/"); `+fld("Issuer")+`); const(":")); `+fld("AccountName")+`)` {
-			ok = true
-		}
+		parts := concatParts(tb, vt)
+		ok := len(parts) == 4 && parts[0] == `"/"` && parts[1] == fld("Issuer") && parts[2] == `":"` && parts[3] == fld("AccountName")
 		c.Decide(ok, "R16.5", bfn, "label", "label = \"/\" + issuer + \":\" + account name, unescaped", "the label is built as "+clip(vt.String(), 240), w.InstrPos(st))
 	}
 
@@ -270,8 +312,14 @@ func runC16(c *Check, w *World) {
 			c.Decide(accept(vt), "R16.5", pfn, "parsed:"+field, field+" ← "+what, field+" is set from "+clip(vt.String(), 240)+", expected "+what, w.InstrPos(st))
 		}
 	}
-	expectField("Issuer", func(t *Term) bool { return t.String() == "index("+split+"; const(0))" }, "the label before the first ':' (leading '/' removed, nothing else trimmed)")
-	expectField("AccountName", func(t *Term) bool { return t.String() == "index("+split+"; const(1))" }, "the label after the first ':'")
+	// strings.Cut(x, ":") gives the same two halves as SplitN(x, ":", 2) whenever a ':' is present
+	cut := "call(strings.Cut; call(strings.TrimPrefix; field(Path; " + U + "); const(\"/\")); const(\":\"))"
+	expectField("Issuer", func(t *Term) bool {
+		return t.String() == "index("+split+"; const(0))" || t.String() == "extract(0; "+cut+")"
+	}, "the label before the first ':' (leading '/' removed, nothing else trimmed)")
+	expectField("AccountName", func(t *Term) bool {
+		return t.String() == "index("+split+"; const(1))" || t.String() == "extract(1; "+cut+")"
+	}, "the label after the first ':'")
 	expectField("Secret", func(t *Term) bool { return t.String() == get("secret") }, "query secret")
 	isParse := func(t *Term, key string) bool {
 		for t.Op == "conv" {
@@ -383,12 +431,10 @@ func runC16(c *Check, w *World) {
 	c.Count("narrowing_conversions", nconv)
 	// ---- R16.4 defaults agree: generator 0 -> 6 --------------------------------------------------
 	okD := false
-	for _, st := range fieldStores(tb, builder, "URLParam")["Digits"] {
-		if k, ok := constInt(st.Val); ok && k.Int64() == 6 {
-			for _, at := range atomsOf(CondsAt(st.Block())) {
-				if kk, ok := constInt(at.Y); ok && kk.Sign() == 0 && at.Op.String() == "==" {
-					okD = true
-				}
+	for _, st := range sets {
+		if st.key == "digits" {
+			if x, ok := decimalOf(tb, st.val); ok {
+				okD, _ = defaultedInt(tb, builder, x, fld("Digits"), "Digits", "6")
 			}
 		}
 	}
@@ -414,4 +460,12 @@ func init() {
 		thorough: []Config{CfgNative, Cfg386},
 		run:      runC16,
 	})
+}
+
+func isNonString(t types.Type) bool {
+	if t == nil {
+		return false
+	}
+	b, ok := t.Underlying().(*types.Basic)
+	return !ok || b.Info()&types.IsString == 0
 }
